@@ -375,6 +375,7 @@ class PyFunction(Function):
                 return False
             elif inverse and any(a > b for a, b in zip(value, old_value)):
                 return False
+            old_value = value
         return True
 
     def is_monotone_at(self, output_index: int, inverse: bool = False) -> bool:
